@@ -492,6 +492,7 @@ def callVerdict (fn : String) (toks : List String) (obs : String) : String :=
       -- not modelled: the verdict depends on the class only; the value tokens are not
       -- interpreted (they must be present: one per position) unless a fault has to be classified
       if toks.any (·.isEmpty) then "BADOP token"
+      else if fn == "@so/1" then classVerdict fn [] obs cls "" false       -- tokens are jq source, not values
       else if cls == "panic" || cls == "crash" || cls == "resource:mem" then
         match toks.mapM parseTok with
         | some vs => classVerdict fn (vs.map normalizeNumbers) obs cls "" (hasHugeString toks)
